@@ -260,8 +260,11 @@ void tinyjambu_prng_feed
 
     /* Note: SP.800-90Ar1 says that reseed_counter should be set back to 1
      * when reseeding, but we aren't really reseeding here.  So instead we
-     * increase the "reseed needed" counter to force a real reseed later. */
-    ++(pstate->reseed_counter);
+     * increase the "reseed needed" counter to force a real reseed later.
+     * The counter saturates so that a long run of feeds cannot wrap it
+     * back to zero and postpone the reseed. */
+    if (pstate->reseed_counter != 0xFFFFFFFFU)
+        ++(pstate->reseed_counter);
 }
 
 /* Hash_DRBG_Reseed from section 10.1.1.3 of SP.800-90Ar1 for the special
